@@ -1,6 +1,7 @@
 import UtilModel.Model.Size
 import UtilModel.Lemmas.Dec
 import UtilModel.Spec.SizeText
+/-! # Helper lemmas for C08 (size arithmetic, text scanner, `Bytes[N]`) -/
 namespace U.Size
 open U U.Props.C08
 
@@ -495,5 +496,142 @@ theorem pn_nodigit (s : Bytes)
         rw [List.dropWhile_cons]; simp [h32]
       rw [if_neg hd]
       split <;> rfl
+
+/-! ## `Bytes[N]` -/
+
+theorem bitLen_zero : bitLen 0 = 0 := by decide
+
+theorem bitLen_pos (n : Nat) (h : n ≠ 0) : bitLen n = Nat.log2 n + 1 := by
+  unfold bitLen; rw [if_neg h]
+
+/-- `bitLen n` is the number of binary digits of `n` -/
+theorem lt_two_pow_bitLen (n : Nat) : n < 2 ^ bitLen n := by
+  by_cases h : n = 0
+  · subst h; decide
+  · rw [bitLen_pos n h]; exact Nat.lt_log2_self
+
+theorem two_pow_bitLen_le (n : Nat) (h : n ≠ 0) : 2 ^ (bitLen n - 1) ≤ n := by
+  rw [bitLen_pos n h, Nat.add_sub_cancel]; exact Nat.log2_self_le h
+
+theorem roundToBits_small (p n : Nat) (h : bitLen n ≤ p) : roundToBits p n = n := by
+  unfold roundToBits
+  simp only
+  rw [if_pos h]
+
+/-- rounding leaves `s` unchanged exactly when the bits below the `p` leading ones are all zero -/
+theorem roundToBits_fix_iff (p s : Nat) :
+    roundToBits p s = s ↔ (bitLen s ≤ p ∨ s % 2 ^ (bitLen s - p) = 0) := by
+  by_cases hl : bitLen s ≤ p
+  · rw [roundToBits_small p s hl]
+    exact ⟨fun _ => .inl hl, fun _ => rfl⟩
+  · unfold roundToBits
+    simp only
+    rw [if_neg hl]
+    generalize bitLen s = l at hl
+    have hsh : l - p = (l - p - 1) + 1 := by omega
+    generalize hd : 2 ^ (l - p) = d
+    generalize hh : 2 ^ (l - p - 1) = half
+    have hdh : d = 2 * half := by
+      rw [← hd, ← hh]
+      conv => lhs; rw [hsh, Nat.pow_succ]
+      omega
+    have hhalf : 0 < half := by rw [← hh]; exact Nat.pow_pos (by decide)
+    rw [Nat.shiftRight_eq_div_pow, Nat.shiftLeft_eq, hd]
+    have hs : s = (s / d) * d + s % d := by
+      have := Nat.div_add_mod s d; rw [Nat.mul_comm] at this; omega
+    have hr : s % d < d := Nat.mod_lt _ (by omega)
+    generalize s / d = q at hs ⊢
+    generalize s % d = r at hs hr ⊢
+    constructor
+    · intro h
+      refine .inr ?_
+      split at h
+      · rename_i hc
+        simp only [Bool.or_eq_true, decide_eq_true_eq, Bool.and_eq_true, beq_iff_eq] at hc
+        rw [Nat.add_mul] at h
+        generalize q * d = X at h hs
+        omega
+      · generalize q * d = X at h hs
+        omega
+    · rintro (h | h)
+      · omega
+      · subst h
+        rw [if_neg]
+        · omega
+        · simp only [Bool.or_eq_true, decide_eq_true_eq, Bool.and_eq_true, beq_iff_eq]
+          omega
+
+/-- the same condition, as "`s` has at most `p` significant bits" -/
+theorem fits_iff (p s : Nat) :
+    (bitLen s ≤ p ∨ s % 2 ^ (bitLen s - p) = 0) ↔ ∃ m e, m < 2 ^ p ∧ s = m * 2 ^ e := by
+  constructor
+  · rintro (h | h)
+    · refine ⟨s, 0, ?_, by simp⟩
+      exact Nat.lt_of_lt_of_le (lt_two_pow_bitLen s) (Nat.pow_le_pow_right (by decide) h)
+    · by_cases hl : bitLen s ≤ p
+      · refine ⟨s, 0, ?_, by simp⟩
+        exact Nat.lt_of_lt_of_le (lt_two_pow_bitLen s) (Nat.pow_le_pow_right (by decide) hl)
+      · refine ⟨s / 2 ^ (bitLen s - p), bitLen s - p, ?_, ?_⟩
+        · apply Nat.div_lt_of_lt_mul
+          rw [← Nat.pow_add]
+          have : bitLen s - p + p = bitLen s := by omega
+          rw [this]
+          exact lt_two_pow_bitLen s
+        · have := Nat.div_add_mod s (2 ^ (bitLen s - p))
+          rw [h, Nat.mul_comm] at this
+          omega
+  · rintro ⟨m, e, hm, hs⟩
+    by_cases hl : bitLen s ≤ p
+    · exact .inl hl
+    · refine .inr ?_
+      have hs0 : s ≠ 0 := by
+        intro h0; rw [h0, bitLen_zero] at hl; omega
+      have h1 := two_pow_bitLen_le s hs0
+      have h2 : s < 2 ^ (p + e) := by
+        rw [hs, Nat.pow_add]
+        exact (Nat.mul_lt_mul_right (Nat.pow_pos (by decide))).mpr hm
+      have h3 : bitLen s - 1 < p + e := by
+        apply Nat.lt_of_not_le
+        intro hle
+        have := Nat.pow_le_pow_right (show 0 < 2 by decide) hle
+        omega
+      generalize bitLen s = l at h3 hl ⊢
+      have he : e = (e - (l - p)) + (l - p) := by omega
+      rw [hs]
+      conv => lhs; rw [he, Nat.pow_add, ← Nat.mul_assoc]
+      exact Nat.mul_mod_left _ _
+
+theorem roundToBits_two63 : roundToBits 24 (2 ^ 63) = 2 ^ 63 ∧ roundToBits 53 (2 ^ 63) = 2 ^ 63 := by
+  decide
+
+theorem bytesAs_float (k : Kind) (p : Nat) (hk : (k = .float32 ∧ p = 24) ∨ (k = .float64 ∧ p = 53))
+    (s : Nat) (hs64 : s < 2 ^ 64) :
+    bytesAs k s = if roundToBits p s = s then (s, true) else (0, false) := by
+  have key : ∀ f : Nat, roundToBits p (2 ^ 63) = 2 ^ 63 → f = roundToBits p s →
+      (if s = (if f ≥ two64 then 2 ^ 63 else f) then (f, true) else ((0 : Nat), false)) =
+        if f = s then (s, true) else (0, false) := by
+    intro f h63 hf
+    by_cases hge : f ≥ two64
+    · rw [if_pos hge]
+      by_cases hs : s = 2 ^ 63
+      · exfalso
+        rw [hs, h63] at hf
+        rw [hf] at hge
+        exact absurd hge (by decide)
+      · rw [if_neg hs, if_neg]
+        intro hfs
+        rw [two64_eq] at hge
+        omega
+    · rw [if_neg hge]
+      by_cases hfs : f = s
+      · rw [if_pos hfs.symm, if_pos hfs, hfs]
+      · rw [if_neg (fun h => hfs h.symm), if_neg hfs]
+  rcases hk with ⟨rfl, rfl⟩ | ⟨rfl, rfl⟩
+  · exact key _ roundToBits_two63.1 rfl
+  · exact key _ roundToBits_two63.2 rfl
+
+theorem bytesAs_int (k : Kind) (hk : k ≠ .float32 ∧ k ≠ .float64) (s : Nat) :
+    bytesAs k s = if s ≤ k.maxInt then (s, true) else (0, false) := by
+  cases k <;> first | rfl | (exfalso; simp at hk)
 
 end U.Size
